@@ -147,6 +147,32 @@ def run(ctx: Ctx):
                     ctx.fail("P:C05:component-no-injection",
                              {"payload": pay, "where": where, "impl_equal": False, "param_backslash": hit},
                              {"names": names, "props": [cl.structure(x) for x in evs]}, None)
+    # the value text is the value whatever parameters accompany it: parameters that announce a transfer encoding, a character
+    # set or a type to other parsers do not make this one re-interpret the text
+    accomp = [{"ENCODING": "QUOTED-PRINTABLE"}, {"ENCODING": "quoted-printable", "LANGUAGE": "en"}, {"ENCODING": "QUOTED-PRINTABLE", "CHARSET": "latin-1"},
+              {"ENCODING": "8BIT"}, {"ENCODING": "BASE64"}, {"CHARSET": "utf-16"}, {"VALUE": "TEXT"}, {"FMTTYPE": "text/html"}, {"X-ENCODING": "URL"}, {"LANGUAGE": "en"}]
+    texts = ["1 + 1 =3D 2, caf=C3=A9", "a=41b", "soft=", "=3D=3D", "aGVsbG8=", "a%41b%0D%0Ac", "&amp;&#65;", "\\u0041", "=?utf-8?q?a=41?=", "caf\u00e9 =E9"]
+    for prm in accomp:
+        for txt in texts:
+            for nm, mk in (("description", vText), ("x-note", vText), ("x-plain", lambda s: s), ("url", vUri), ("comment", vText), ("attendee", vCalAddress)):
+                ctx.evaluations += 1
+                ctx.case(("accompanied", tuple(sorted(prm.items())), txt, nm), True)
+                e = Event()
+                try:
+                    e.add(nm, mk(txt), parameters=dict(prm))
+                    cal = Calendar()
+                    cal.add_component(e)
+                    cur = cal
+                    for _ in range(2):
+                        cur = Calendar.from_ical(cur.to_ical())
+                    (bev,) = cur.walk("VEVENT")
+                    got = bev[nm]
+                    ok = not bev.errors and str.__str__(got) == txt and {k: v for k, v in got.params.items()} == {k.upper(): v for k, v in prm.items()}
+                    obs = {"value": str.__str__(got) if isinstance(got, str) else repr(got)[:80], "params": dict(got.params), "errors": [list(map(str, x))[:2] for x in bev.errors]}
+                except Exception as x:   # noqa: BLE001
+                    ok, obs = False, type(x).__name__ + ": " + str(x)[:80]
+                if not ok:
+                    ctx.fail("P:C05:value-roundtrip", {"name": nm, "value": txt, "params": prm, "impl_equal": False, "accompanied": True}, obs, None)
     for idx, clause, known in ctx.validate_trace("Trace_ContentLine", ev, cfg_text(spec="Spec"), chunk=4000, timeout=3000):
         if clause.startswith("P:C05"):
             case = dict(meta[idx]); case["impl_equal"] = known
